@@ -52,14 +52,52 @@ namespace MantraDex
     decDiv m a b = .ok y ↔ b ≠ 0 ∧ a * ONE18 / b ≤ m ∧ y = a * ONE18 / b := by
   simp [decDiv]
 
+@[simp] theorem orPanic_ok {α : Type} {r : R α} {y : α} : orPanic r = .ok y ↔ r = .ok y := by
+  unfold orPanic; cases r <;> simp
+
 /-- bind inversion for `Except`: the workhorse for unfolding `do` blocks -/
 theorem bind_ok {α β : Type} {x : R α} {f : α → R β} {y : β} :
     (x >>= f) = .ok y ↔ ∃ a, x = .ok a ∧ f a = .ok y := by
   cases x <;> simp [bind, Except.bind]
 
+theorem map_ok {α β : Type} {x : R α} {f : α → β} {y : β} :
+    (f <$> x) = .ok y ↔ ∃ a, x = .ok a ∧ y = f a := by
+  cases x <;> simp [Functor.map, Except.map, eq_comm]
+
 @[simp] theorem pure_ok {α : Type} {a y : α} : (pure a : R α) = .ok y ↔ y = a := by
   simp [pure, Except.pure, eq_comm]
 
 theorem ONE18_pos : 0 < ONE18 := by decide
+
+/-! ### floor-division facts over arbitrary naturals (constants stay folded in the callers) -/
+
+theorem min_mono_left {a b c : Nat} (h : a ≤ b) : min a c ≤ min b c := by omega
+
+theorem div_mul_le_mul_div (a c k : Nat) : a / k * c ≤ a * c / k := by
+  rcases Nat.eq_zero_or_pos k with rfl | hk
+  · simp
+  · rw [Nat.le_div_iff_mul_le hk, Nat.mul_right_comm]
+    exact Nat.mul_le_mul_right _ (Nat.div_mul_le_self a k)
+
+theorem div_add_div_le (a b k : Nat) : a / k + b / k ≤ (a + b) / k := by
+  rcases Nat.eq_zero_or_pos k with rfl | hk
+  · simp
+  · rw [Nat.le_div_iff_mul_le hk, Nat.add_mul]
+    exact Nat.add_le_add (Nat.div_mul_le_self a k) (Nat.div_mul_le_self b k)
+
+theorem mul_div_le_of_le {x m k : Nat} (h : m ≤ k) : x * m / k ≤ x := by
+  rcases Nat.eq_zero_or_pos k with rfl | hk
+  · simp
+  · calc x * m / k ≤ x * k / k := Nat.div_le_div_right (Nat.mul_le_mul_left _ h)
+      _ = x := Nat.mul_div_cancel _ hk
+
+theorem le_mul_div_of_le {x m k : Nat} (hk : 0 < k) (h : k ≤ m) : x ≤ x * m / k := by
+  calc x = x * k / k := (Nat.mul_div_cancel _ hk).symm
+    _ ≤ x * m / k := Nat.div_le_div_right (Nat.mul_le_mul_left _ h)
+
+/-- ⌊⌊a·k·m / k⌋ / k⌋ = ⌊a·m / k⌋ : the double floor of `Decimal::from_ratio(a,1) * m` then
+    `to_uint_floor` is a single floor -/
+theorem mul_mul_div_cancel (a k m : Nat) (hk : 0 < k) : a * k * m / k = a * m := by
+  rw [Nat.mul_assoc, Nat.mul_comm k m, ← Nat.mul_assoc, Nat.mul_div_cancel _ hk]
 
 end MantraDex
